@@ -84,6 +84,16 @@ def programs(seed, n, ncodegen=None):
 
 # --------------------------------------------------------------------------- canonical summary (runs in the children)
 
+def _canon_expr(e):
+    """address-free text of a scalar expression (reductions print their operator object)"""
+    import re
+    try:
+        from .. import ser
+        return ser.sexpr(e)
+    except Exception:      # noqa: BLE001
+        return re.sub(r" object at 0x[0-9a-f]+", "", str(e))
+
+
 def _structure(expr, memo):
     """structural dump of a part expression: class names, placeholder names, index-lambda
     expressions and binding names in sorted order, tag class names sorted — no repr()"""
@@ -95,7 +105,7 @@ def _structure(expr, memo):
     if isinstance(expr, Placeholder):
         r = ["Placeholder", expr.name, list(expr.shape), str(expr.dtype), tags]
     elif isinstance(expr, IndexLambda):
-        r = ["IndexLambda", str(expr.expr), list(expr.shape), str(expr.dtype), tags,
+        r = ["IndexLambda", _canon_expr(expr.expr), list(expr.shape), str(expr.dtype), tags,
              [[nm, _structure(expr.bindings[nm], memo)] for nm in sorted(expr.bindings)]]
     elif isinstance(expr, DataWrapper):
         import hashlib
